@@ -11,7 +11,8 @@
 From Coq Require Import ZArith List Bool.
 Import ListNotations.
 Require Import MayV.Rt.AtomicDur MayV.Rt.TimedCallers MayV.Rt.TimedCallersThm MayV.Rt.TimedCallersBound
-               MayV.Rt.TimedCallersInst MayV.Rt.TimedChain MayV.Rt.TimedChainThm MayV.Rt.TimedCallersProps.
+               MayV.Rt.TimedCallersInst MayV.Rt.TimedChain MayV.Rt.TimedChainThm MayV.Rt.TimedCallersProps
+               MayV.Rt.TimedCallersRun.
 Open Scope Z_scope.
 
 (* ================================ never early ================================ *)
@@ -228,8 +229,11 @@ Proof. exact chain_example_fired_before_published. Qed.
 
 (* the differential function agrees with the theorems on the witness script: the code is late, the textbook loop is not *)
 Example C08_callers_nonvacuous_run :
-  tc_run [0; 0; 0; 2000000; 1; 3500000; 1500000; 2] = [1; 3500000] /\
-  tc_run [10; 0; 0; 2000000; 1; 2500000; 1500000; 2] = [1; 2500000] /\
-  tc_run [2; 0; 0; 1900000; 1; 2000000] = [1; 2000000] /\
-  tc_run [2; 1; 0; 1900000; 1; 1900000] = [1; 1900000].
+  tc_run_all [0; 0; 0; 2000000; 1; 3500000; 1500000; 2] = [1; 3500000] /\
+  tc_run_all [10; 0; 0; 2000000; 1; 2500000; 1500000; 2] = [1; 2500000] /\
+  tc_run_all [2; 0; 0; 1900000; 1; 2000000] = [1; 2000000] /\
+  tc_run_all [2; 1; 0; 1900000; 1; 1900000] = [1; 1900000] /\
+  tc_run_all [3; 0; 7; 1900000; 1; 1900007] = [1; 1900007] /\
+  (* an observation the model does not explain is answered by the model's own value *)
+  tc_run_all [0; 0; 0; 2000000; 1; 1999999] = [1; 2000000].
 Proof. vm_compute. repeat split. Qed.
